@@ -143,3 +143,63 @@ Proof.
   assert (AD : Qabs (Y - X) <= X * (1 # 10000000000000)) by (apply Qabs_le_iff; exact Near).
   apply Qabs_le_iff. split; nra.
 Qed.
+
+Lemma Qle_bool_false a b : b < a -> Qle_bool a b = false.
+Proof.
+  intro H. destruct (Qle_bool a b) eqn:E; [|reflexivity]. apply Qle_bool_iff in E.
+  exfalso. apply (Qlt_irrefl b). eapply Qlt_le_trans; eauto.
+Qed.
+
+(** ... and rejects two positive floats that differ by at least 1.5e-9 of the larger one. *)
+Lemma isclose_false a b :
+  is_float a = true -> is_float b = true ->
+  (5 # 10000000) <= to_Q a -> to_Q a <= 2 * 1000000 ->
+  (5 # 10000000) <= to_Q b -> to_Q b <= 2 * 1000000 ->
+  to_Q a * (15 # 10000000000) <= Qabs (to_Q b - to_Q a) ->
+  to_Q b * (15 # 10000000000) <= Qabs (to_Q b - to_Q a) ->
+  isclose_with (fst isclose_rel_tol) (snd isclose_rel_tol) a b = Some false.
+Proof.
+  intros Fa Fb Lo Hi Lo2 Hi2 FarX FarY. unfold isclose_with. rewrite (to_float_float a Fa), (to_float_float b Fb).
+  unfold to_Q in *. destruct (to_frac a) as [n1 d1], (to_frac b) as [n2 d2].
+  set (X := n1 # d1) in *. set (Y := n2 # d2) in *.
+  destruct tiny_small as [Ty0 Ty1]. destruct u_small as [U0 U1]. destruct tolq_bounds as [L1 L2].
+  destruct (n1 * Z.pos d2 =? n2 * Z.pos d1)%Z eqn:Eq.
+  { exfalso. apply Z.eqb_eq in Eq. assert (XY : Y - X == 0) by (unfold X, Y, Qeq, Qminus, Qplus, Qopp; cbn [Qnum Qden]; lia).
+    rewrite XY in FarX. change (Qabs 0) with 0 in FarX. lra. }
+  assert (V : (n2 * Z.pos d1 - n1 * Z.pos d2 # (d1 * d2)) == Y - X).
+  { unfold X, Y, Qeq, Qminus, Qplus, Qopp. cbn [Qnum Qden]. rewrite !Pos2Z.inj_mul. ring. }
+  assert (Dhi : Qabs (Y - X) <= 1000000000000) by (apply Qabs_le_iff; split; lra).
+  destruct (round_two_sided (n2 * Z.pos d1 - n1 * Z.pos d2) (d1 * d2)) as [df [Rd Ed]]; [rewrite V; exact Dhi|].
+  rewrite Rd, V in *.
+  assert (Wx : (fst isclose_rel_tol * n1 # (snd isclose_rel_tol * d1)) == tolq * X) by reflexivity.
+  assert (Wy : (fst isclose_rel_tol * n2 # (snd isclose_rel_tol * d2)) == tolq * Y) by reflexivity.
+  destruct (round_two_sided (fst isclose_rel_tol * n1) (snd isclose_rel_tol * d1)) as [t1 [Rt1 Et1]].
+  { rewrite Wx. rewrite Qabs_pos by nra. nra. }
+  destruct (round_two_sided (fst isclose_rel_tol * n2) (snd isclose_rel_tol * d2)) as [t2 [Rt2 Et2]].
+  { rewrite Wy. rewrite Qabs_pos by nra. nra. }
+  rewrite Wx in Et1. rewrite (Qabs_pos (tolq * X)) in Et1 by nra.
+  rewrite Wy in Et2. rewrite (Qabs_pos (tolq * Y)) in Et2 by nra.
+  destruct (to_frac df) as [dn dd] eqn:Fd. cbv beta iota zeta.
+  f_equal. rewrite Rt1, Rt2.
+  destruct (to_frac t1) as [tn1 td1] eqn:Ft1. destruct (to_frac t2) as [tn2 td2] eqn:Ft2.
+  change (Qle_bool (Z.abs dn # dd) (Z.abs tn2 # td2) || Qle_bool (Z.abs dn # dd) (Z.abs tn1 # td1) = false).
+  unfold to_Q in Ed, Et1, Et2. rewrite Fd in Ed. rewrite Ft1 in Et1. rewrite Ft2 in Et2.
+  change (Z.abs dn # dd) with (Qabs (dn # dd)). change (Z.abs tn1 # td1) with (Qabs (tn1 # td1)).
+  change (Z.abs tn2 # td2) with (Qabs (tn2 # td2)).
+  set (DF := dn # dd) in *. set (TT1 := tn1 # td1) in *. set (TT2 := tn2 # td2) in *.
+  (* |DF| >= |D| (1 - u) - tiny *)
+  pose proof (Qabs_triangle_reverse (Y - X) DF) as Tr.
+  assert (Sw : Qabs (Y - X - DF) == Qabs (DF - (Y - X))).
+  { setoid_replace (Y - X - DF) with (- (DF - (Y - X))) by ring. apply Qabs_opp. }
+  rewrite Sw in Tr.
+  set (AD := Qabs (Y - X)) in *. set (ADF := Qabs DF) in *.
+  assert (ADp : 0 <= AD) by apply Qabs_nonneg.
+  assert (G1 : AD * u53 <= AD * (1 # 1000000000000000)).
+  { rewrite (Qmult_comm AD u53), (Qmult_comm AD (1 # 1000000000000000)). apply Qmult_le_compat_r; assumption. }
+  apply Qabs_le_iff in Et1. apply Qabs_le_iff in Et2.
+  assert (T1b : Qabs TT1 <= tolq * X * (1 + u53) + tiny) by (apply Qabs_le_iff; split; nra).
+  assert (T2b : Qabs TT2 <= tolq * Y * (1 + u53) + tiny) by (apply Qabs_le_iff; split; nra).
+  assert (TX : tolq * X * (1 + u53) <= X * (12 # 10000000000)) by nra.
+  assert (TY : tolq * Y * (1 + u53) <= Y * (12 # 10000000000)) by nra.
+  apply orb_false_iff. split; apply Qle_bool_false; lra.
+Qed.
